@@ -145,7 +145,7 @@ theorem code_matches_model :
       ["for { v, err := s.dec.Decode() if err != nil { if err != io.EOF { s.p.logger.Warnf(\"loop read exit: %v\", err) } return } req := newRawRequest(v) s.p.handleRequest(req) select { case s.processingReqs <- req: case <-s.quit: return } }"] ∧
     Gen.Session.loopWrite =
       ["var ( req *rawRequest err error )",
-       "for { select { case <-s.quit: return case req = <-s.processingReqs: } req.Wait() resp := req.Response() if err = s.enc.Encode(resp); err != nil { goto FAIL } if len(s.processingReqs) != 0 { continue } if err = s.enc.Flush(); err != nil { goto FAIL } }",
+       "for { select { case <-s.quit: return case req = <-s.processingReqs: } select { case <-req.done: case <-s.quit: return } resp := req.Response() if err = s.enc.Encode(resp); err != nil { goto FAIL } if len(s.processingReqs) != 0 { continue } if err = s.enc.Flush(); err != nil { goto FAIL } }",
        "FAIL: s.p.logger.Warnf(\"loop write exit: %v\", err)"] ∧
     Gen.Session.mgetSetResponse =
       ["v := make([]RespValue, len(r.children))",
